@@ -247,10 +247,27 @@ func (x *pmExec) connect(hs *Payload, hsCode uint32) bool {
 		t0 := time.Now()
 		defer func() { fmt.Fprintf(os.Stderr, "connect %v\n", time.Since(t0)) }()
 	}
+	if x.dead {
+		return false
+	}
 	x.nConn++
 	p := newSPeer(fx.NewKey("c15-remote", x.nConn))
 	p.answered = &x.answered
-	subscribe.Send(subscribe.AddNewPeer, p2p.IPeer(p))
+	// the bus delivers synchronously (it spins until the manager's peer loop takes the event)
+	delivered := make(chan struct{})
+	go func() {
+		subscribe.Send(subscribe.AddNewPeer, p2p.IPeer(p))
+		close(delivered)
+	}()
+	if !waitCh(delivered, pmWatchdog) {
+		if !x.dead {
+			where, all := stuckWhere()
+			x.s.Violation("C15/node-unresponsive:c:new-peer-event-not-taken:"+where,
+				fmt.Sprintf("the manager's peer loop does not take a new-peer event within %v; goroutines of the manager: %s", pmWatchdog, all), map[string]interface{}{"window": append([]Case(nil), x.window...)})
+		}
+		x.dead = true
+		return false
+	}
 	// the node speaks first
 	select {
 	case m := <-p.out:
@@ -357,6 +374,9 @@ func (x *pmExec) alive() (ok bool, reconnected bool) {
 }
 
 func (x *pmExec) exec(cs Case) {
+	if x.dead {
+		return
+	}
 	if os.Getenv("C15_DEBUG_TIME") != "" {
 		t0 := time.Now()
 		defer func() { fmt.Fprintf(os.Stderr, "exec %v %s\n", time.Since(t0), cs.Kind) }()
